@@ -36,6 +36,8 @@ type Case struct {
 	Crc    string        `json:"crc,omitempty"`    // a byte string for the direct CRC-32 comparison (lendata.go)
 	Stream *Stream       `json:"stream,omitempty"` // legs2.go: the packets travel as ONE stream on one codec instance, read through the named reader, every decoded packet HELD and looked at again later
 	Forged *Forged       `json:"forged,omitempty"` // legs2.go: the last four body bytes of Pkts[0] are solved for so that the frame's CRC-32 is the given value
+	Fill   *Fill         `json:"fill,omitempty"`   // legs4.go: the packets are written to ONE writer of the named kind (fill state steered), flushed only at the end
+	Big    *Big          `json:"big,omitempty"`    // legs4.go: a generated body of more than 256 MiB; Pkts is unused then
 }
 
 // failCtx is put in front of every failure text (the search legs name the step and packet of a history there);
@@ -676,7 +678,11 @@ func main() {
 	if r.Replay != "" {
 		var c Case
 		r.LoadReplay(&c)
-		if c.Stream != nil {
+		if c.Fill != nil {
+			runFill(r, &c)
+		} else if c.Big != nil {
+			runBig(r, &c)
+		} else if c.Stream != nil {
 			runStream(r, &c)
 		} else if c.Forged != nil {
 			runForged(r, &c)
@@ -695,10 +701,12 @@ func main() {
 	if os.Getenv("HX_LEGS_ONLY") != "" { // development: the legs of search.go alone
 		legs(r)
 		legs2(r)
+		legs4(r)
 		return
 	}
 	generate(r)
 	generateLd(r, r.R) // lendata.go: the length-prefixed pair and the direct CRC-32 comparison
 	legs2(r)           // legs2.go: second round (held outputs, forged checksums and cross-decoding, custom cryptors, shared scratch buffers, word-extreme thresholds)
+	legs4(r)           // legs4.go: fourth round (writer kinds and fill states of an unflushed bufio.Writer; from thorough on: bodies above 256 MiB)
 	legs(r)            // search.go (after the generators, so that the smallest failing case of a kind is recorded first): cheap legs in every tier, the 10-60 s ones from thorough on, the rest with -search only
 }
